@@ -228,6 +228,13 @@ FamOObj(z) == {C5("oobj", Named("Thing"), [k |-> "node"]), C5("oobj", Named("Thi
             C5("oobj", ListOf(Named("Thing")), GList("lres", "", <<[k |-> "node"], [k |-> "node"]>>)),
             C5("oobj", ListOf(Named("Thing")), Null)}
 
+\* two required arguments, each given as a literal, as a literal null, left out or through a variable without value: the
+\* resolver is invoked exactly when both are given (C04: required fields present, non-null positions never null).  The
+\* cases are also run one after the other on ONE root: what a request supplied says nothing about the next one.
+ReqStates == {"lit", "null", "omit", "unset"}
+FamReq2(z) == {[fam |-> "req2", st |-> [p |-> a, q |-> b]] : a \in ReqStates, b \in ReqStates}
+ReqOut(st) == IF \A n \in DOMAIN st : st[n] = "lit" THEN "call" ELSE "reject"
+
 FamilyOf(f) ==
   CASE f = "lit0" -> FamLit0(0)
     [] f = "var0" -> FamVar0(0)
@@ -241,6 +248,7 @@ FamilyOf(f) ==
     [] f = "varin" -> FamVarIn(0)
     [] f = "objlist" -> FamObjList(0)
     [] f = "relaxed" -> FamRelaxed(0)
+    [] f = "req2" -> FamReq2(0)
     [] f = "oleaf" -> FamOLeaf(0)
     [] f = "olist" -> FamOList(0)
     [] f = "otyped" -> FamOTyped(0)
@@ -249,6 +257,7 @@ FamilyOf(f) ==
     [] f = "oobj" -> FamOObj(0)
 
 IsOut(c) == "gv" \in DOMAIN c
+IsIn(c) == "lit" \in DOMAIN c
 
 MCInit == phase = "fam" /\ cs \in {[fam |-> f] : f \in Fams}
 MCNext == phase = "fam" /\ phase' = "case" /\ cs' \in FamilyOf(cs.fam)
@@ -264,7 +273,8 @@ SOut == CoerceOut(USchema, cs.t, cs.gv)
 MOut(dv) == CoOut(USchema, cs.t, cs.gv, dv)
 
 Vector ==
-  IF IsOut(cs)
+  IF cs.fam = "req2" THEN cs @@ [exp |-> [out |-> ReqOut(cs.st)]]
+  ELSE IF IsOut(cs)
   THEN LET s == SOut
            m == MOut(KnownDev)
        IN IF CompatOut(s, m) THEN cs @@ [exp |-> s]
@@ -278,13 +288,13 @@ Emit == phase = "case" => PrintT("@@VEC " \o ToJson(Vector))
 
 \* ---- properties of the specification itself, checked on every enumerated case ----
 \* the design without deviations yields only outcomes the property allows
-RefinesIn == (phase = "case" /\ ~IsOut(cs)) => CompatIn(SIn, MIn({}))
+RefinesIn == (phase = "case" /\ IsIn(cs)) => CompatIn(SIn, MIn({}))
 RefinesOut == (phase = "case" /\ IsOut(cs)) => CompatOut(SOut, MOut({}))
 \* C04: whatever the property lets through conforms to the declared type
-OracleConforms == (phase = "case" /\ ~IsOut(cs)) => (SIn.out \in {"call", "may"} => Conforms(USchema, cs.t, SIn.val))
+OracleConforms == (phase = "case" /\ IsIn(cs)) => (SIn.out \in {"call", "may"} => Conforms(USchema, cs.t, SIn.val))
 \* C04: a value that does not conform as written and is not coercible is rejected: accepting is never
 \* prescribed for a null at a non-null position
-OracleNonNull == (phase = "case" /\ ~IsOut(cs)) =>
+OracleNonNull == (phase = "case" /\ IsIn(cs)) =>
                    ((cs.t.k = "nonnull" /\ cs.lit.k = "null") => SIn.out = "reject")
 \* C05: whatever the property prescribes has the JSON shape of the declared type; raw values never occur
 OracleWellTyped == (phase = "case" /\ IsOut(cs)) => WellTyped(USchema, cs.t, SOut)
